@@ -55,7 +55,20 @@ def shards(tier):
     for L in range(1, b['two_len'] + 1):
         for first in 'abc':
             out.append({'kind': 'two', 'L': L, 'first': first})
+    for i in range(len(LONG_PARTS)):
+        out.append({'kind': 'longparts', 'i': i})
     return out
+
+
+LONG_PARTS = ((480, 260, 220), (500, 260, 130), (390, 260, 0), (520, 260, 260))       # (text length, end of part 1, start of part 2)
+
+
+def long_text(n, seed=7):
+    x, out = seed, []
+    for _ in range(n):
+        x = (x * 1103515245 + 12345) % (2 ** 31)
+        out.append('abcdefgh'[(x >> 16) % 8])
+    return ''.join(out)
 
 
 CW = 8                       # pixels per painted character
@@ -192,6 +205,11 @@ def run_shard(shard, ctx, tier):
         for a in P[shard['lo']:shard['hi']]:
             for c in P:
                 guarded_check(mod, {'parts': [a, c]}, ctx)
+    elif shard['kind'] == 'longparts':
+        # parts of more than 255 characters, overlaps on both sides of 127 / 255
+        n, k, j = LONG_PARTS[shard['i']]
+        T = long_text(n)
+        guarded_check(mod, {'parts': [T[:k], T[j:]], 'two': T}, ctx)
     elif shard['kind'] == 'two':
         # every way of reading one text T as two true windows a = T[:k], b = T[j:] (j <= k), including a second window that only repeats
         # the end of the first one (k = len(T))
@@ -303,6 +321,8 @@ def check_case(case, ctx):
             true_ov = len(a_) + len(b_) - len(case['two'])
             if exact == [true_ov]:
                 ctx.tag('unique-exact-overlap')
+                if len(a_) > 255:
+                    ctx.tag('parts-longer-than-255')
                 if len(b_) == true_ov:
                     ctx.tag('second-window-only-repeats-the-overlap')
                 if text != case['two']:
@@ -344,6 +364,6 @@ def describe(tier):
                 'Non-trivial: a list whose merges have both a zero and a positive detected overlap.',
         'bounds': BOUNDS[tier], 'alphabets': {'lists': 'ab', 'pairs': 'abc', 'windows': 'ab (+c as noise)'},
         'assumptions': ['the detected overlap is the implementation\'s find_best_overlap (sanity-checked only)'],
-        'min_nontrivial': 20, 'required_tags': ['unique-exact-overlap', 'second-window-only-repeats-the-overlap', 'zero-overlap', 'odd-overlap', 'empty-part', 'noisy-overlap', 'split-lines-merged', 'engine-empty-part',
+        'min_nontrivial': 20, 'required_tags': ['parts-longer-than-255', 'unique-exact-overlap', 'second-window-only-repeats-the-overlap', 'zero-overlap', 'odd-overlap', 'empty-part', 'noisy-overlap', 'split-lines-merged', 'engine-empty-part',
                           'engine-merge-restores-the-text'],
     }
